@@ -672,8 +672,80 @@ def native_owner_witness(which):
     return None
 
 
+def real_population_wrappers(rec):
+    """bounded run-time contract on the real classes (the proofs above use stub models of <= 3 parameters): ReducedPopulationModel around
+    real population models whose parameter list changes with set_n_ids / renaming *after* the wrapper was created; fixing by name then
+    removes exactly that parameter and evaluates like the wrapped model at the substituted vector"""
+    import chi as real
+    mk = {
+        'Gaussian(2)': lambda: real.GaussianModel(n_dim=2),
+        'LogNormal(1, non-centred)': lambda: real.LogNormalModel(centered=False),
+        'Heterogeneous(1)': lambda: real.HeterogeneousModel(n_dim=1, n_ids=1),
+        'Heterogeneous(2)': lambda: real.HeterogeneousModel(n_dim=2, n_ids=2),
+        'Composed[Heterogeneous, LogNormal]': lambda: real.ComposedPopulationModel([real.HeterogeneousModel(), real.LogNormalModel()]),
+        'Composed[Gaussian, Heterogeneous, Pooled]': lambda: real.ComposedPopulationModel([real.GaussianModel(), real.HeterogeneousModel(), real.PooledModel()]),
+        'Composed[Pooled, Gaussian(nc)]': lambda: real.ComposedPopulationModel([real.PooledModel(), real.GaussianModel(centered=False)]),
+    }
+    hists = [(), ('n3',), ('n4', 'n3'), ('n3', 'dims'), ('dims', 'n3'), ('n2', 'fix0', 'n3'), ('n3', 'pars')]
+    cases = [(lab, h, k) for lab in mk for h in hists for k in (0, 1, -2, -1)]
+
+    def apply(m, step, wrapper):
+        if step.startswith('n'):
+            m.set_n_ids(int(step[1:]))
+        elif step == 'dims':
+            m.set_dim_names(['D%d' % j for j in range(m.n_dim())])
+        elif step == 'pars':
+            m.set_parameter_names(['Q%d' % j for j in range(m.n_parameters())])
+        elif step == 'fix0' and wrapper:
+            # fix and release again before the model is resized
+            nm = m.get_parameter_names()[0]
+            m.fix_parameters({nm: 1.0})
+            m.fix_parameters({nm: None})
+
+    def one(case):
+        lab, hist, k = case
+        full = mk[lab]()
+        r = real.ReducedPopulationModel(mk[lab]())
+        for st in hist + (('n3',) if 'n3' not in hist else ()):
+            try:
+                apply(full, st, False)
+                apply(r, st, True)
+            except Exception as ex:
+                return '%s: %s raises %r' % (lab, st, ex)
+        names = list(full.get_parameter_names())
+        if list(r.get_parameter_names()) != names:
+            return '%s after %s: the wrapper (nothing fixed) publishes %s, the wrapped model %s' % (lab, list(hist), list(r.get_parameter_names()), names)
+        n = len(names)
+        kk = k % n
+        vals = 0.6 + 0.07 * np.arange(n)
+        rng = np.random.default_rng(3)
+        psi = np.asarray(full.compute_individual_parameters(vals, rng.uniform(0.5, 1.5, (3, full.n_dim()))), dtype=float)
+        r.fix_parameters({names[kk]: float(vals[kk])})
+        free = names[:kk] + names[kk + 1:]
+        if list(r.get_parameter_names()) != free or r.n_parameters() != n - 1:
+            return '%s after %s: fixing %r leaves %s (n = %s), expected %s' % (lab, list(hist), names[kk], list(r.get_parameter_names()), r.n_parameters(), free)
+        x = np.delete(vals, kk)
+        try:
+            a_, b_ = r.compute_log_likelihood(x, psi), full.compute_log_likelihood(vals, psi)
+            (sa, ra), (sb, rb) = r.compute_sensitivities(x, psi, reduce=True), full.compute_sensitivities(vals, psi, reduce=True)
+            ia, ib = r.compute_individual_parameters(x, psi), full.compute_individual_parameters(vals, psi)
+        except Exception as ex:
+            return '%s after %s with %r fixed: evaluation raises %r' % (lab, list(hist), names[kk], ex)
+        nb = len(rb) - n
+        want = np.delete(np.asarray(rb, dtype=float), nb + kk)
+        if not np.isclose(a_, b_) or not np.isclose(sa, sb) or np.shape(ra) != np.shape(want) or not np.allclose(ra, want) or not np.allclose(ia, ib):
+            return '%s after %s with %r fixed at %r: value %r (wrapped model at the substituted vector: %r), hierarchical sensitivities %s (restriction: %s)' % (
+                lab, list(hist), names[kk], float(vals[kk]), float(a_), float(b_), np.round(np.asarray(ra, dtype=float), 6).tolist(), np.round(want, 6).tolist())
+        return None
+    q = 'chi._population_models.ReducedPopulationModel.'
+    rec.native_check('ReducedPopulationModel/real-models', [q + m_ for m_ in ('fix_parameters', 'set_n_ids', 'set_dim_names', 'set_parameter_names', 'get_parameter_names', 'compute_log_likelihood',
+                                                                              'compute_sensitivities', 'compute_individual_parameters')], cases, one,
+                     '%d real population models (incl. heterogeneous models alone and inside compositions) x %d resize / rename histories applied through the wrapper before fixing x 4 positions of the fixed parameter' % (len(mk), len(hists)),
+                     exhaustive=True)
+
+
 def tasks():
-    out = []
+    out = [('ReducedPopulationModel:real', real_population_wrappers)]
     for p in (1, 2, 3):
         out.append(('ReducedErrorModel:%d' % p, (lambda rec, p=p: reduced_error(rec, p))))
         out.append(('ReducedMechanisticModel:%d' % p, (lambda rec, p=p: reduced_mechanistic(rec, p))))
